@@ -45,7 +45,25 @@ def contraction_case(draw):
 
 @st.composite
 def diverging_case(draw):
-    kind = draw(st.sampled_from(['gain', 'gain', 'square', 'huge', 'oscillate', 'leaf-div0']))
+    kind = draw(st.sampled_from(['gain', 'gain', 'square', 'huge', 'oscillate', 'leaf-div0', 'exp-overflow']))
+    if kind == 'exp-overflow':
+        # a recursive block in which exp() of a growing stock leaves the float range for good in some period: the
+        # evaluation raises OverflowError (not an inf value), while everything else in the period settles at once
+        step = draw(st.sampled_from([150.0, 200.0, 120.0]))
+        T = draw(st.sampled_from([6, 7, 5]))
+        eqs = [['w', 'LAG_w + %r' % step, 'sim'], ['z', draw(st.sampled_from(['exp(w)', '2.0**w', 'exp(w) + 1.0'])), 'sim'],
+               ['s', draw(st.sampled_from(['z/(1.0 + z)', '0.5*z', 'w + 1.0'])), draw(st.sampled_from(['sim', 'leaf']))]]
+        if draw(st.booleans()):
+            eqs.append(['u', '0.5*s + 1.0', 'sim'])
+        spec = {'eqs': eqs, 'lags': [['LAG_w', 'w', '(k-1)']], 'exo': [], 'ics': [], 'maxtime': T,
+                'tol': draw(st.sampled_from(['1e-6', '1e-4'])), 'layout': {'eqsp': ' = ', 'perm': None,
+                                                                           'config': draw(st.sampled_from(['early', 'late', 'ctor']))},
+                'cert': {'family': kind, 'q': 99.0, 'feedforward': True,
+                         'lam': {'w': None, 'z': None, 's': None, 'u': None}}}
+        spec['reduction'] = draw(st.booleans())
+        spec['max_iter'] = None
+        spec['tol_param'] = None
+        return spec
     if kind == 'leaf-div0':
         # a derived-only ratio whose denominator (an exogenous series) is exactly zero in one period
         spec = draw(blocks.system(n_sim=(1, 3), q_hi=50, lags=(0, 1), exos=(0, 1), consts=(0, 0), aliases=(0, 0),
